@@ -1593,11 +1593,6 @@ static int set_peer_names_attr(struct xcm_socket *s, void *context,
 	return -1;
     }
 
-    if (bts->valid_peer_names != NULL) {
-	slist_destroy(bts->valid_peer_names);
-	bts->valid_peer_names = NULL;
-    }
-
     struct slist *new_names = slist_split(value, SAN_DELIMITER);
 
     if (slist_len(new_names) > 0) {
@@ -1611,9 +1606,16 @@ static int set_peer_names_attr(struct xcm_socket *s, void *context,
 		return -1;
 	    }
 	}
+    }
 
+    if (bts->valid_peer_names != NULL) {
+	slist_destroy(bts->valid_peer_names);
+	bts->valid_peer_names = NULL;
+    }
+
+    if (slist_len(new_names) > 0)
 	bts->valid_peer_names = new_names;
-    } else
+    else
 	slist_destroy(new_names);
 
     bts->valid_peer_names_set = true;
